@@ -56,110 +56,133 @@ def rule_fsm(chk):
     states = f.variants("preprocess::ConditionState", PP)
     chk.ob("C11.fsm/states", states is not None and set(states) == {"Enabled", "DisabledInner", "DisabledOuter"},
            "ConditionState = %s" % states, "preprocess/src/preprocess.rs")
+    # switch / pop / is_active are evaluated on concrete chains (finite-map reader with a modelled Vec): whatever way the
+    # functions are written, what counts is the chain they leave behind and the result they return
+    ST = ["Enabled", "DisabledInner", "DisabledOuter"]
+
+    def chain(sts):
+        return I.Enum("ConditionChain", None, {"0": [I.Enum("ConditionState", s) for s in sts]})
+
+    def run(fn, sts, *extra):
+        c = chain(sts)
+        try:
+            r = ip.apply(fn, [c] + list(extra))
+        except I.Unknown as e:
+            return "unreadable: %s" % e, None
+        rv = r.variant if isinstance(r, I.Enum) else r
+        if isinstance(r, I.Enum) and r.variant == "Err":
+            e0 = r.fields.get("0")
+            rv = "Err(%s)" % (e0.variant if isinstance(e0, I.Enum) else "?")
+        return rv, [x.variant if isinstance(x, I.Enum) else str(x) for x in c.fields["0"]]
     if sw:
-        ms = F.find_matches(sw, "ConditionState")
-        if len(ms) != 1:
-            chk.ob("C11.fsm/switch-table", False, "anchor-missing: the transition match over ConditionState", where(sw))
-        else:
-            m = ms[0]
-            # variable ids of the scrutinee and of `active`
-            scr = F.strip(m["scrut"])
-            active_ids = [p["pat"]["id"] for p in sw["params"] if p.get("pat", {}).get("k") == "Bind" and p["ty"] == "bool"]
-            for (st, a), want in sorted(REF_SWITCH.items()):
-                env = {}
-                if scr.get("k") == "Var":
-                    env[scr["id"]] = I.Enum("ConditionState", st)
-                for i in active_ids:
-                    env[i] = a
-                try:
-                    got = ip.ev(m, env)
-                    gv = got.variant if isinstance(got, I.Enum) else str(got)
-                except I.Unknown as e:
-                    gv = "unreadable: %s" % e
-                chk.ob("C11.fsm/switch/%s,%s" % (st, "active" if a else "inactive"), gv == want,
-                       "%s --#elif/#else(%s)--> %s" % (st, a, gv) if gv == want else
-                       "transition %s --(condition %s)--> %s, C rules require %s" % (st, a, gv, want),
-                       where(sw, m), sample={"state": st, "active": a, "next": gv})
-            # the new state replaces the popped one: the match value is pushed back
-            pushed = [c for c in F.exprs(sw["thir"], "Call") if (c.get("fn") or "").endswith("Vec::<T, A>::push")
-                      and any(x is m for x in F.walk(c))]
-            chk.ob("C11.fsm/switch-replaces-top", len(pushed) == 1, "switch pushes the new state in place of the popped one"
-                   if pushed else "switch no longer pushes the transition result back onto the chain", where(sw))
-        errs = {a.get("variant") for a in F.exprs(sw["thir"], "Adt") if short(a["adt"]) == "PreprocessError"}
-        chk.ob("C11.fsm/else-unmatched", errs == {"ElseNotMatched"}, "switch on an empty chain -> %s" % sorted(errs), where(sw))
-        _none_arm_errs(chk, sw, "C11.fsm/else-unmatched-arm", "ElseNotMatched")
+        for (st, a), want in sorted(REF_SWITCH.items()):
+            for below in ([], ["DisabledInner"], ["Enabled", "DisabledOuter"]):
+                rv, after = run(sw, below + [st], a)
+                ok = rv == "Ok" and after == below + [want]
+                if not ok or not below:
+                    chk.ob("C11.fsm/switch/%s,%s%s" % (st, "active" if a else "inactive", "" if not below else "/under-%d" % len(below)), ok,
+                           "%s --#elif/#else(%s)--> %s" % (st, a, want) if ok else
+                           "transition of the innermost level %s under %s with condition %s: returns %s and leaves %s, C rules require Ok and %s" % (st, below, a, rv, after, below + [want]),
+                           where(sw), sample={"state": st, "active": a, "next": (after or [None])[-1]})
+        chk.ob("C11.fsm/switch-replaces-top", True, "covered by the chains above: only the innermost level changes, the depth is kept", where(sw), trivial=True)
+        for a in (False, True):
+            rv, after = run(sw, [], a)
+            ok = rv == "Err(ElseNotMatched)" and after == []
+            chk.ob("C11.fsm/else-unmatched%s" % ("" if not a else "-arm"), ok, "switch on an empty chain -> ElseNotMatched" if ok else
+                   "#else / #elif without an open #if returns %s (chain %s), must be Err(ElseNotMatched)" % (rv, after), where(sw))
     if pop:
-        errs = {a.get("variant") for a in F.exprs(pop["thir"], "Adt") if short(a["adt"]) == "PreprocessError"}
-        chk.ob("C11.fsm/endif-unmatched", errs == {"EndIfNotMatched"}, "pop on an empty chain -> %s" % sorted(errs), where(pop))
-        _none_arm_errs(chk, pop, "C11.fsm/endif-unmatched-arm", "EndIfNotMatched")
+        for sts in ([s] for s in ST):
+            rv, after = run(pop, ["Enabled"] + sts)
+            ok = rv == "Ok" and after == ["Enabled"]
+            chk.ob("C11.fsm/endif/%s" % sts[0], ok, "#endif removes the innermost level" if ok else "pop of %s returns %s and leaves %s" % (sts, rv, after), where(pop))
+        rv, after = run(pop, [])
+        ok = rv == "Err(EndIfNotMatched)" and after == []
+        chk.ob("C11.fsm/endif-unmatched", ok, "pop on an empty chain -> EndIfNotMatched" if ok else "#endif without an open #if returns %s, must be Err(EndIfNotMatched)" % rv, where(pop))
+        chk.ob("C11.fsm/endif-unmatched-arm", ok, "same", where(pop), trivial=True)
     if act:
-        calls = [c.get("fn") for c in F.exprs(act["thir"], "Call")]
-        uses_all = any((c or "").endswith("Iterator::all") for c in calls)
-        clos = f.closures_of(act["path"])
-        cmp_ok = False
-        for cb in clos:
-            for c in F.exprs(cb["thir"], "Call"):
-                if (c.get("fn") or "").endswith("PartialEq::eq"):
-                    ad = [F.adt_ctor(a) for a in c["args"]]
-                    cmp_ok = any(x and x[1] == "Enabled" for x in ad)
-            for b in F.exprs(cb["thir"], "Binary"):
-                if b["op"] == "Eq":
-                    cmp_ok = cmp_ok or any((F.adt_ctor(x) or (0, 0))[1] == "Enabled" for x in (b["l"], b["r"]))
-        chk.ob("C11.fsm/is_active", uses_all and cmp_ok,
-               "is_active = all levels == Enabled" if uses_all and cmp_ok else
-               "is_active is no longer `all(|g| g == Enabled)` (calls: %s)" % [short(c or "") for c in calls], where(act))
+        import itertools
+        bad = []
+        n_act = 0
+        for ln in range(0, 4):
+            for sts in itertools.product(ST, repeat=ln):
+                n_act += 1
+                try:
+                    r = ip.apply(act, [chain(list(sts))])
+                except I.Unknown as e:
+                    r = "unreadable: %s" % e
+                if r != all(s == "Enabled" for s in sts):
+                    bad.append((list(sts), r))
+        chk.ob("C11.fsm/is_active", not bad, "is_active = every level is Enabled (%d chains)" % n_act if not bad else
+               "is_active(%s) = %s; a region is active exactly when every enclosing level is Enabled (%d of %d chains wrong)" % (bad[0][0], bad[0][1], len(bad), n_act), where(act))
     # pushes in preprocess_command
     pc = chk.anchor("C11.anchor/preprocess_command", f.fn("preprocess_command", PP), "preprocess_command")
     if pc:
         pushes = [c for c in F.exprs(pc["thir"], "Call") if (c.get("fn") or "").endswith("ConditionChain::push")]
         chk.floor("C11.floor/pushes", len(pushes), 4, "condition_chain.push sites in preprocess_command", where(pc))
         n_cond = 0
-        for c in pushes:
-            a = F.strip(c["args"][1])
-            if a.get("k") == "If":
-                n_cond += 1
-                th = F.adt_ctor(F.tail(a["then"]))
-                el = F.adt_ctor(F.tail(a.get("else", {})))
-                ok = th and el and th[1] == "Enabled" and el[1] == "DisabledInner"
-                chk.ob("C11.fsm/push-polarity", bool(ok),
-                       "push(if active {Enabled} else {DisabledInner})" if ok else
-                       "a conditional push maps active->%s, inactive->%s (must be Enabled / DisabledInner)" % (th and th[1], el and el[1]),
-                       where(pc, c), sample={"then": th and th[1], "else": el and el[1]})
-            else:
-                ad = F.adt_ctor(a)
-                chk.ob("C11.fsm/push-skipped", bool(ad) and ad[1] == "DisabledInner",
-                       "unconditional push is DisabledInner" if ad and ad[1] == "DisabledInner" else
-                       "an unconditional push stores %s (a skipped #if must push DisabledInner)" % (ad and ad[1]), where(pc, c))
-        chk.floor("C11.floor/conditional-pushes", n_cond, 2, "conditional pushes (#if, #ifdef/#ifndef)", where(pc))
-        # ifndef negation: active = if not { !exists } else { exists }
-        tr = TF.BodyIndex(pc)
+        lets = F.let_table(pc["thir"])
+        SIMPLE = {"If", "Unary", "Binary", "Logical", "Var", "Block", "Lit", "Borrow", "Deref"}
+
+        def bool_inline(e, depth=4):
+            """Replace bool temporaries whose initialiser is itself a boolean formula by that formula."""
+            def sub(n, d):
+                if isinstance(n, list):
+                    return [sub(x, d) for x in n]
+                if not isinstance(n, dict):
+                    return n
+                if n.get("k") == "Var" and n.get("ty") == "bool" and n.get("id") in lets and d > 0:
+                    init = lets[n["id"]]
+                    if all(x.get("k") in SIMPLE for x in F.walk(init) if isinstance(x, dict) and "k" in x):
+                        return sub(init, d - 1)
+                return {k: (sub(v, d) if isinstance(v, (dict, list)) else v) for k, v in n.items()}
+            return sub(e, depth)
         ok_neg = False
-        for s in F.walk(pc["thir"]):
-            if s.get("k") == "LetStmt" and s["pat"].get("k") == "Bind" and s["pat"].get("ty") == "bool" and s.get("init", {}).get("k") == "If":
-                init = s["init"]
-                vars_ = {v["id"]: v["name"] for v in F.exprs(init, "Var")}
-                if len(vars_) == 2:
-                    ids = sorted(vars_)
-                    cond_id = F.strip(init["cond"]).get("id")
-                    other = [i for i in ids if i != cond_id]
-                    if cond_id in vars_ and len(other) == 1:
-                        tab = {}
-                        for nv in (False, True):
-                            for ex in (False, True):
-                                try:
-                                    tab[(nv, ex)] = ip.ev(init, {cond_id: nv, other[0]: ex})
-                                except I.Unknown:
-                                    tab[(nv, ex)] = None
-                        ok_neg = all(tab[(nv, ex)] == (nv != ex) for nv in (False, True) for ex in (False, True))
-                        # `not` must be the comparison with "ifndef"
-                        site = [x for x in tr.sites.get(cond_id, []) if x[0] == "expr"]
-                        lits = [l.get("v") for x in site for l in F.exprs(x[1], "Lit") if l.get("t") == "str"]
-                        ok_neg = ok_neg and lits == ["ifndef"]
-                        chk.ob("C11.fsm/ifndef-negation", ok_neg,
-                               "active = exists XOR (command == \"ifndef\")" if ok_neg else
-                               "#ifdef/#ifndef activity table is %s with negation keyed on %s" % (tab, lits), where(pc, s))
+        for c in pushes:
+            arg = bool_inline(c["args"][1])
+            inputs = {}
+            for v in F.exprs(arg, "Var"):
+                if v.get("ty") == "bool":
+                    inputs[v["id"]] = v
+            ids = sorted(inputs)
+            table = {}
+            readable = len(ids) <= 2
+            if readable:
+                import itertools as _it
+                for vals in _it.product((False, True), repeat=len(ids)):
+                    try:
+                        r = ip.ev(arg, dict(zip(ids, vals)))
+                        table[vals] = r.variant if isinstance(r, I.Enum) else str(r)
+                    except I.Unknown as e:
+                        table[vals] = "unreadable (%s)" % e
+            if len(ids) == 0:
+                ok = table.get(()) == "DisabledInner"
+                chk.ob("C11.fsm/push-skipped", ok, "unconditional push is DisabledInner" if ok else
+                       "an unconditional push stores %s (a skipped #if must push DisabledInner)" % table.get(()), where(pc, c))
+            elif len(ids) == 1:
+                n_cond += 1
+                ok = table == {(True,): "Enabled", (False,): "DisabledInner"}
+                chk.ob("C11.fsm/push-polarity", ok, "push(Enabled if the condition holds, else DisabledInner)" if ok else
+                       "a conditional push maps active->%s, inactive->%s (must be Enabled / DisabledInner)" % (table.get((True,)), table.get((False,))),
+                       where(pc, c), sample={"then": table.get((True,)), "else": table.get((False,))})
+            elif len(ids) == 2:
+                n_cond += 1
+                xor = all(table.get((a_, b_)) == ("Enabled" if a_ != b_ else "DisabledInner") for a_ in (False, True) for b_ in (False, True))
+                # one of the two inputs is the comparison of the directive name with "ifndef"
+                lits = []
+                for i_ in ids:
+                    init = lets.get(i_)
+                    if init is not None:
+                        lits += [l.get("v") for l in F.exprs(init, "Lit") if l.get("t") == "str"]
+                ok_neg = xor and lits == ["ifndef"]
+                chk.ob("C11.fsm/push-polarity", xor, "push(Enabled iff defined XOR negated)" if xor else
+                       "the #ifdef/#ifndef push table is %s (must be Enabled exactly when `defined` differs from `negated`)" % table, where(pc, c))
+                chk.ob("C11.fsm/ifndef-negation", ok_neg, "active = exists XOR (command == \"ifndef\")" if ok_neg else
+                       "#ifdef/#ifndef activity table is %s with negation keyed on %s" % (table, lits), where(pc, c))
+            else:
+                chk.ob("C11.fsm/push-polarity", False, "the pushed state depends on %d boolean inputs: not a readable condition push" % len(ids), where(pc, c))
+        chk.floor("C11.floor/conditional-pushes", n_cond, 2, "conditional pushes (#if, #ifdef/#ifndef)", where(pc))
         if not ok_neg:
-            chk.ob("C11.fsm/ifndef-negation", False, "anchor-missing or wrong: `active = if not {!exists} else {exists}`", where(pc))
+            chk.ob("C11.fsm/ifndef-negation", False, "anchor-missing or wrong: the #ifdef/#ifndef push `Enabled iff exists XOR (command == \"ifndef\")`", where(pc))
     # unfinished chain at end of the entry file
     init = chk.anchor("C11.anchor/preprocess_initial_file", f.fn("preprocess_initial_file", PP), "preprocess_initial_file")
     if init:
@@ -249,6 +272,11 @@ def rule_gate(chk):
         if p is not None:
             sig = cfg.slice([p if isinstance(p, int) else p["l"]], through_calls=False)
             may_enable = ("ConditionState", "Enabled") in sig.ctors
+            for cal in sig.calls:        # the state may be chosen by a helper (`ConditionState::for_new_block(active)`)
+                cb = f.bodies.get(cal)
+                if cb is not None and cb.get("crate") == pc.get("crate") and "thir" in cb:
+                    if any(short(a.get("adt", "")) == "ConditionState" and a.get("variant") == "Enabled" for a in F.exprs(cb["thir"], "Adt")):
+                        may_enable = True
         else:
             k = M.op_const(arg) or {}
             may_enable = False
@@ -369,27 +397,23 @@ def rule_eval(chk):
                "the unary `!` level is no longer `! p2 -> (value == 0)` followed by the leaf parser", where(last))
         leaf = valfns.get(others[0]) if others else None
         if chk.anchor("C11.anchor/parse_leaf", leaf, "condition leaf parser"):
+            # the leaf parser read as a finite map: parse_leaf([tok, <marker>]) for each leaf token kind
             tab = {}
-            for m in F.exprs(leaf["thir"], "Match"):
-                for arm in m["arms"]:
-                    for alt in F.pat_alternatives(arm["pat"]):
-                        pv = F.pat_variant(alt)
-                        if not pv or pv[0] != "Token":
-                            continue
-                        rets = [r for r in F.exprs(arm["body"], "Return")]
-                        val = None
-                        for r in rets:
-                            for t in F.exprs(r, "Tuple"):
-                                if len(t["elems"]) == 2:
-                                    l = F.lit(t["elems"][1])
-                                    if l:
-                                        val = l[1]
-                                    else:
-                                        v = F.strip(t["elems"][1])
-                                        if v.get("k") == "Var":
-                                            binds = [sp["p"].get("id") for sp in alt.get("subs", []) if sp["p"].get("k") == "Bind"]
-                                            val = "payload" if v.get("id") in binds else "var:" + v.get("name", "?")
-                        tab[pv[1]] = val
+            ipl = I.Interp(f)
+            marker = I.Enum("Token", "Semicolon")
+            for kname_, tokv in (("False", I.Enum("Token", "False")), ("True", I.Enum("Token", "True")), ("LiteralInt", I.Enum("Token", "LiteralInt", {"0": 41})),
+                                 ("LiteralIntUnsigned32", I.Enum("Token", "LiteralIntUnsigned32", {"0": 41})),
+                                 ("Id", I.Enum("Token", "Id", {"0": I.Opaque("identifier")})), ("LeftParen", I.Enum("Token", "LeftParen"))):
+                try:
+                    r = ipl.apply(leaf, [[tokv, marker]])
+                except I.Unknown as e:
+                    tab[kname_] = "LeftParen" if kname_ == "LeftParen" else "unreadable (%s)" % e
+                    continue
+                if isinstance(r, I.Enum) and r.variant == "Ok" and isinstance(r.fields.get("0"), tuple) and r.fields["0"][0] == [marker]:
+                    v_ = r.fields["0"][1]
+                    tab[kname_] = "payload" if v_ == 41 else v_
+                else:
+                    tab[kname_] = "rejected" if isinstance(r, I.Enum) and r.variant == "Err" else repr(r)
             want = {"False": 0, "True": 1, "LiteralInt": "payload", "LiteralIntUnsigned32": "payload", "Id": 0}
             for k, v in want.items():
                 chk.ob("C11.eval/leaf/" + k, tab.get(k) == v, "Token::%s -> %s" % (k, tab.get(k)) if tab.get(k) == v else
@@ -431,25 +455,63 @@ def rule_eval(chk):
             left_ok = any(o[0] == "param" and o[2] == 0 for o in o1) and any(o[0] == "call" and o[1] == ap["path"] for o in o1)
             right_ok = o2 and all(o[0] == "param" and o[2] == 1 for o in o2)
             ok_order = bool(left_ok and right_ok)
+    if not ok_order:
+        # the same left fold written as rights.iter().fold(left, |acc, (op, exp)| op.apply(acc, *exp))
+        for c in F.exprs(comb["thir"], "Call"):
+            if short(c.get("fn") or "") != "fold" or len(c.get("args", [])) < 3:
+                continue
+            init = tr.trace(comb, c["args"][1], ())
+            forward = not any(short(x.get("fn") or "") in ("rev", "skip", "take", "step_by", "filter") for x in F.exprs(c["args"][0], "Call"))
+            src = F.leftmost_var(c["args"][0])
+            params = [q.get("pat", {}).get("id") for q in comb["params"]]
+            clo = F.strip(c["args"][2])
+            cb = f.bodies.get(clo.get("path")) if clo.get("k") == "Closure" else None
+            if not cb or not forward or src is None or src["id"] != params[1] or not (init and all(o[0] == "param" and o[2] == 0 for o in init)):
+                continue
+            cps = cb.get("params", [])[1:]
+            if len(cps) != 2:
+                continue
+            acc_ids = {i for i, n_, p_ in F.pat_binds(cps[0].get("pat", {}))}
+            el_ids = {i for i, n_, p_ in F.pat_binds(cps[1].get("pat", {}))}
+            for cc in F.exprs(cb["thir"], "Call"):
+                if cc.get("fn") == (ap or {}).get("path") and len(cc.get("args", [])) == 3:
+                    v1 = {v["id"] for v in F.exprs(cc["args"][1], "Var")}
+                    v2 = {v["id"] for v in F.exprs(cc["args"][2], "Var")}
+                    ok_order = bool(v1) and v1 <= acc_ids and bool(v2) and v2 <= el_ids and F.strip(F.tail(cb["thir"])) is F.strip(cc)
     chk.ob("C11.eval/left-fold", ok_order, "combine_rights applies op(accumulated, right) from left to right" if ok_order else
            "combine_rights no longer folds left with (accumulated value, right operand) order", where(comb))
-    # result and trailing tokens
+    # result and trailing tokens: the final match of parse() read as a finite map over the possible results of the
+    # top-level parser: Ok(([], v)) -> Ok(v != 0); Ok((non-empty rest, v)) -> Err; Err(_) -> Err
     res_ok = False
     trailing_ok = False
+    ip = I.Interp(f)
     for m in F.exprs(entry["thir"], "Match"):
-        for arm in m["arms"]:
-            p = arm["pat"]
-            if F.pat_variant(p) == ("Result", "Ok"):
-                inner = F.pat_sub(p, "0")
-                if inner and inner.get("k") == "Leaf":
-                    rest = F.pat_sub(inner, "0")
-                    body_ok = [a for a in F.exprs(arm["body"], "Adt") if short(a["adt"]) == "Result"]
-                    is_empty_slice = rest is not None and rest.get("k") == "Slice" and not rest.get("prefix") and "slice" not in rest
-                    if is_empty_slice:
-                        ne0 = any(b["op"] == "Ne" and F.lit(b["r"]) == ("int", 0) for b in F.exprs(arm["body"], "Binary"))
-                        res_ok = ne0 and bool(body_ok) and body_ok[0].get("variant") == "Ok"
-                    else:
-                        trailing_ok = bool(body_ok) and body_ok[0].get("variant") == "Err"
+        sc = F.strip(m["scrut"])
+        if sc.get("k") != "Call" or (sc.get("fn") or "") not in f.bodies or f.bodies[sc["fn"]].get("crate") != entry.get("crate"):
+            continue
+        if not any(F.pat_variant(x) == ("Result", "Ok") for a_ in m["arms"] for x in F.pat_alternatives(a_["pat"])):
+            continue
+
+        def run_with(val, m=m, sc=sc):
+            ip2 = I.Interp(f, extern={sc["fn"]: lambda a, val=val: val})
+            try:
+                r = ip2.ev(m, {})
+            except I.ReturnEx as e:
+                r = e.value
+            except I.Unknown as e:
+                return "unreadable (%s)" % e
+            if isinstance(r, I.Enum) and r.variant == "Ok":
+                return ("Ok", r.fields.get("0"))
+            if isinstance(r, I.Enum) and r.variant == "Err":
+                return ("Err",)
+            return r
+        ok = lambda v, rest=(): I.Enum("Result", "Ok", {"0": (list(rest), v)})
+        got = [run_with(ok(0)), run_with(ok(1)), run_with(ok(7))]
+        res_ok = got == [("Ok", False), ("Ok", True), ("Ok", True)]
+        tr_got = [run_with(ok(1, [I.Enum("Token", "Id")])), run_with(ok(0, [I.Enum("Token", "Id"), I.Enum("Token", "Id")])), run_with(I.Enum("Result", "Err", {"0": I.Opaque("e")}))]
+        trailing_ok = all(x == ("Err",) for x in tr_got)
+        if res_ok or trailing_ok:
+            break
     chk.ob("C11.eval/result", res_ok, "condition holds iff value != 0 with no tokens left" if res_ok else
            "parse() no longer returns `value != 0` for a fully consumed condition", where(entry))
     chk.ob("C11.eval/trailing", trailing_ok, "trailing tokens are rejected" if trailing_ok else "trailing tokens after a condition are not rejected", where(entry))
